@@ -51,6 +51,25 @@ THEOREMS = [
     "Pydjinni.Front.lex_lengths",
     "Pydjinni.Front.scan_ws_run",
     "Pydjinni.Front.lex_ws_invariant",
+    "Pydjinni.Front.decl_roundtrip",
+    "Pydjinni.Front.enum_roundtrip",
+    "Pydjinni.Front.flags_roundtrip",
+    "Pydjinni.Front.record_roundtrip",
+    "Pydjinni.Front.interface_roundtrip",
+    "Pydjinni.Front.function_roundtrip",
+    "Pydjinni.Front.errorDomain_roundtrip",
+    "Pydjinni.Front.method_roundtrip",
+    "Pydjinni.Front.property_roundtrip",
+    "Pydjinni.Front.errCode_roundtrip",
+    "Pydjinni.Front.content_roundtrip",
+    "Pydjinni.Front.file_roundtrip",
+    "Pydjinni.Front.text_roundtrip",
+    "Pydjinni.Front.printFile_injective",
+    "Pydjinni.Front.enum_sound",
+    "Pydjinni.Front.flags_sound",
+    "Pydjinni.Front.record_sound",
+    "Pydjinni.Front.enum_parse_iff_print",
+    "Pydjinni.Front.flags_parse_iff_print",
 ]
 LEVEL = "proof"
 
